@@ -760,6 +760,12 @@ func gSizeBySums(c *Ctx, fn *ssa.Function) string {
 	okStd := false
 	if bo, ok := std.(*ssa.BinOp); ok && bo.Op == token.SUB {
 		okStd = bo.X == tot && bo.Y == data
+		if !okStd {
+			// the same two quantities read again
+			x, _ := ev.eval(bo.X)
+			y, _ := ev.eval(bo.Y)
+			okStd = x != nil && y != nil && x.norm().String() == gt && y.norm().String() == gd.String()
+		}
 	}
 	c.Check(okStd, "G-size", "Tx.SizeWithTypes/TotalStdBytes", fn.Pos(), "TotalStdBytes = TotalBytes - TotalDataBytes (so std + data = total)", "TotalStdBytes is not TotalBytes - TotalDataBytes")
 	if sz := c.P.Func("", "*Tx", "Size"); sz != nil {
